@@ -201,34 +201,32 @@ Inductive encodes_glyph (m : mode) : glyph -> contrib -> Prop :=
          k_comp := flat_map write_component comps; k_bbox := wr_bbox bb; k_ins := instr;
          k_bit := true |}.
 
-(* bboxBitmap: 4 * floor((n + 31) / 32) bytes, glyph 0 = most significant bit of byte 0 *)
-Fixpoint bits_byte (bs : list bool) (w : Z) : Z :=
-  match bs with [] => 0 | b :: r => (if b then w else 0) + bits_byte r (w / 2) end.
-Fixpoint bits_bytes (fuel : nat) (bs : list bool) : list Z :=
-  match fuel with
-  | O => []
-  | S k => bits_byte (firstn 8 bs) 128 :: bits_bytes k (skipn 8 bs)
-  end.
-Definition bbox_bitmap (bs : list bool) : list Z :=
-  bits_bytes (Z.to_nat (4 * ((len bs + 31) / 32))) bs.
+(* bboxBitmap: 4 * floor((n + 31) / 32) bytes; "glyph number 0 corresponds to the most significant
+   bit of the first byte, glyph number 7 to the least significant bit of the first byte, glyph
+   number 8 to the most significant bit of the second byte, and so on".  Padding bits are free. *)
+Definition bitmap_ok (bm : list Z) (bits : list bool) : Prop :=
+  len bm = 4 * ((len bits + 31) / 32) /\ bytes_ok bm = true /\
+  forall i, 0 <= i < len bits ->
+    Z.testbit (nthZ bm (i / 8)) (7 - i mod 8) = nth (Z.to_nat i) bits false.
 
-(* the whole transformed table *)
-Definition tglyf_bytes (index_format : Z) (option_flags : Z) (cs : list contrib) : list Z :=
+(* the whole transformed table: header, then the seven streams (the bbox stream starts with the
+   bitmap) *)
+Definition tglyf_bytes (index_format option_flags : Z) (bm : list Z) (cs : list contrib) : list Z :=
   let nc := flat_map k_nc cs in let np := flat_map k_np cs in let fl := flat_map k_fl cs in
   let gl := flat_map k_gl cs in let comp := flat_map k_comp cs in
-  let bm := bbox_bitmap (map k_bit cs) in let bb := flat_map k_bbox cs in
-  let ins := flat_map k_ins cs in
+  let bb := flat_map k_bbox cs in let ins := flat_map k_ins cs in
   wr_u32 option_flags ++ wr_u16 (len cs) ++ wr_u16 index_format
   ++ wr_u32 (len nc) ++ wr_u32 (len np) ++ wr_u32 (len fl) ++ wr_u32 (len gl)
   ++ wr_u32 (len comp) ++ wr_u32 (len bm + len bb) ++ wr_u32 (len ins)
   ++ nc ++ np ++ fl ++ gl ++ comp ++ bm ++ bb ++ ins.
 
 Definition encodes_glyf_table (m : mode) (gs : list glyph) (bytes : list Z) : Prop :=
-  exists cs index_format option_flags,
+  exists cs bm index_format option_flags,
     Forall2 (encodes_glyph m) gs cs /\ len gs < 65536 /\
+    bitmap_ok bm (map k_bit cs) /\
     0 <= index_format < 65536 /\ 0 <= option_flags < 4294967296 /\
     len bytes < 4294967296 /\
-    bytes = tglyf_bytes index_format option_flags cs.
+    bytes = tglyf_bytes index_format option_flags bm cs.
 
 (* ------------------------------------------------------------------ 5.4 transformed hmtx *)
 (* original metrics: (advanceWidth, lsb) for glyphs below numberOfHMetrics, lsb for the rest *)
